@@ -1,7 +1,7 @@
 \* usage list = occupied addresses = image of the code file; warning 90 <=> intersection (RetractMode any)
-CONSTANTS Mode = "usage" MaxSteps = 6 MaxAddr = 5 MaxLen = 2 Gran = 1 RetractMode = "any"
+CONSTANTS Modes = {"usage"} StepsUsage = 5 StepsXref = 1 StepsSect = 1 StepsPage = 1 MaxAddr = 3 MaxLen = 1 Gran = 1 RetractMode = "any"
   Keys = {"a"} MainFile = "m" IncFiles = {} MaxLineNo = 1 SectNames = {"X"} MaxDepth = 1
-  PageLens = {0} PageWidths = {0} MaxLine = 0 HeaderLen = 1 Fixed = FALSE
+  PageLens = {0} PageWidths = {0} LineLens = {0} HeaderLen = 1 Fixed = FALSE
 SPECIFICATION Spec
 INVARIANTS UsageSaysOccupied WarnIffIntersect NoStaleIndex ChunksApart UsageEqualsImage
 CHECK_DEADLOCK FALSE
